@@ -8,6 +8,7 @@ an independent scanner (vf.lexer) on every call the workload provokes.
 from __future__ import annotations
 
 import io
+import re
 import itertools
 import random
 import sys
@@ -45,6 +46,9 @@ BROKEN = [
     # comment lines between the pieces that do not start in column 1, or that end in `&`
     ("'ab&\n   ! c indented\n   &cd'", "'abcd'"),
     ("'ab&\n\t! c after tab &\n&cd'", "'abcd'"),
+    # the literal's own text ends in `&` exactly where it is split: only the last `&` is the continuation mark
+    ("'R&&\n   &D'", "'R&D'"),
+    ("\"a&&&\n&b\"", "\"a&&b\""),
 ]
 
 # separators that keep the statement going: (name, text, glue)
@@ -92,7 +96,9 @@ END = [
     ("nl_semi_cont_semi", "\n ; &\n ;\n", [], []),
     ("nl_com_linesep", " ! c\u2028 zz = 9 \x0c yy = 8\n", [], []),
 ]
-FINAL = [("", []), (" ! c fin", []), (" !! d fin", ["!! d fin"]), ("\n", []), ("\n\n! c\n", [])]
+FINAL = [("", []), (" ! c fin", []), (" !! d fin", ["!! d fin"]), ("\n", []), ("\n\n! c\n", []),
+         # a preceding-doc block that nothing follows documents nothing (and must not reach whatever is read next in this process)
+         ("\n!> p dangling\n", []), ("\n  !| q dangling\n  ! r more\n", [])]
 
 
 def render(tokens, seps, final):
@@ -137,6 +143,9 @@ def render(tokens, seps, final):
     for d in final[1]:
         expected.append(("d", d))
     return "".join(text), expected
+
+
+EXPLICIT_EMPTY_DOC_RE = re.compile(r"(?m)!(?:!|>|\*|\|)[ \t]*$")
 
 
 def canon_expected(expected):
@@ -283,6 +292,14 @@ def run_case(text, expected):
         got_raw = []
         got = None
     if got == want:
+        # an empty documentation line that the source does not contain is only ever produced for a blank line that follows documentation:
+        # it never directly follows a statement (it would become that statement's documentation)
+        if got_raw and not EXPLICIT_EMPTY_DOC_RE.search(text):
+            for a, b in zip(got_raw, got_raw[1:]):
+                if b.strip() == "!!" and not a.startswith("!!"):
+                    kf = classify(text, want, got, None)
+                    kf["error"] = "empty_doc_line_attached_to_statement"
+                    return {"kf": kf, "witness": {"file": text, "expected": want, "observed": got, "observed_raw": got_raw, "error": None}}
         return None
     return {
         "kf": classify(text, want, got, err),
